@@ -305,7 +305,73 @@ def rule_d(ctx: Ctx) -> None:
     ctx.ok(f"{MOD}|no tree mutator calls in ChangeDistiller/helpers", {"calls_scanned": n_calls})
 
 
-RULES = [rule_ab, rule_c, rule_d]
+def rule_e(ctx: Ctx) -> None:
+    ctx.rule("C20.e", "per-call state of the distiller: every attribute of ChangeDistiller that its methods fill or mutate while diffing is rebound at the start of diff() "
+                      "(an attribute created once in __init__ carries ids of the previous call's nodes into the next)")
+    from ..effects import MUTATORS
+
+    c = ctx.repo.cls(MOD, "ChangeDistiller")
+    meths = c.methods()
+    d = meths.get("diff")
+    ctx.require(d is not None, "anchor vanished: ChangeDistiller.diff")
+    rebound = {x.attr for x in walk_no_nested(d) if isinstance(x, ast.Attribute) and isinstance(x.ctx, ast.Store) and isinstance(x.value, ast.Name) and x.value.id == "self"}
+    mutated: dict[str, str] = {}
+    for name, md in meths.items():
+        if name == "__init__":
+            continue
+        for x in walk_no_nested(md):
+            if isinstance(x, ast.Subscript) and isinstance(x.ctx, (ast.Store, ast.Del)) and isinstance(x.value, ast.Attribute) and isinstance(x.value.value, ast.Name) and x.value.value.id == "self":
+                mutated.setdefault(x.value.attr, f"{name}: {norm(m_stmt(c.module, x), 60)}")
+            if isinstance(x, ast.Call) and isinstance(x.func, ast.Attribute) and x.func.attr in MUTATORS and isinstance(x.func.value, ast.Attribute) \
+                    and isinstance(x.func.value.value, ast.Name) and x.func.value.value.id == "self":
+                mutated.setdefault(x.func.value.attr, f"{name}: {norm(x, 60)}")
+    ctx.require(bool(mutated), "anchor vanished: ChangeDistiller no longer keeps working state on self")
+    for attr, where in sorted(mutated.items()):
+        inst = f"{c.key}|self.{attr}"
+        if attr in rebound:
+            ctx.ok(inst, {"attribute": attr, "mutated_in": where, "rebound_in_diff": True})
+        else:
+            ctx.fail(c.module, d, f"{c.key}.diff", f"self.{attr}",
+                     f"self.{attr} is filled while diffing ({where}) but diff() does not rebind it: a reused ChangeDistiller answers from entries of the previous call "
+                     f"(node ids are reused by the allocator), so a tree diffed against its own copy can give a non-empty delta")
+
+
+def m_stmt(m, node):
+    return m.enclosing_stmt(node) or node
+
+
+def rule_f(ctx: Ctx) -> None:
+    ctx.rule("C20.f", "positional node mapping: the node tuple of an input and the node tuple of its copy that compute_node_mappings zips together are produced by the same traversal method")
+    f = ctx.repo.func(MOD, "diff")
+    binds = {}
+    for st in walk_no_nested(f.node):
+        if isinstance(st, ast.Assign) and len(st.targets) == 1 and isinstance(st.targets[0], ast.Name):
+            binds.setdefault(st.targets[0].id, []).append(st.value)
+
+    def traversal(e: ast.AST) -> str | None:
+        if isinstance(e, ast.Name) and len(binds.get(e.id, [])) == 1:
+            return traversal(binds[e.id][0])
+        if isinstance(e, ast.Call) and call_name(e) in ("tuple", "list") and len(e.args) == 1:
+            return traversal(e.args[0])
+        if isinstance(e, ast.Call) and isinstance(e.func, ast.Attribute) and not e.args:
+            return e.func.attr
+        return None
+
+    calls = [c for c in walk_no_nested(f.node) if isinstance(c, ast.Call) and call_name(c) == "compute_node_mappings" and len(c.args) == 2]
+    ctx.require(len(calls) >= 2, "anchor vanished: diff() no longer maps both inputs with compute_node_mappings(old_nodes, new_nodes)")
+    for c in calls:
+        a, b = traversal(c.args[0]), traversal(c.args[1])
+        inst = f"{f.key}|{norm(c, 80)}"
+        if a is None or b is None:
+            ctx.ok(inst, {"decided": False, "note": "traversal of an argument not recognised"})
+        elif a == b:
+            ctx.ok(inst, {"old_nodes": a, "new_nodes": b})
+        else:
+            ctx.fail(f.module, c, f.key, c, f"the original's nodes are listed with .{a}() but the copy's with .{b}(): positions no longer correspond, so caller-supplied matchings are "
+                                           f"remapped onto the wrong copied nodes")
+
+
+RULES = [rule_ab, rule_c, rule_d, rule_e, rule_f]
 EXPLANATION = (
     "Partition typestate of the Change Distiller decided structurally: co-location of matching_set.add with both "
     "unmatched-set removals, the both-unmatched proof (membership or snapshot+pop+break), same-type dominance (also "
